@@ -10,6 +10,7 @@ import (
 	"sort"
 	"strings"
 	"time"
+	"tsim/genfault"
 
 	"github.com/tendermint/tendermint/crypto/ed25519"
 	"github.com/tendermint/tendermint/crypto/tmhash"
@@ -393,6 +394,7 @@ func (w *tmWorld) apply(op kernel.Op) {
 		if w.host.InBlock {
 			return
 		}
+		genfault.Run(w.rec, w.host, int64(w.host.Height)+op.Arg(0))
 		issues := w.host.ModuleRoundTrip()
 		w.rec.Fault("node.export_roundtrip")
 		for _, is := range issues {
